@@ -6,13 +6,13 @@ import codec
 META = {
     "property_id": "C04",
     "engine": "lean-wire-codec",
-    "technique": "Lean 4: one mutual-induction round-trip theorem over an executable model of the reflection codec (encode.go/decode.go/request.go/response.go) for ALL resolved schemas and values; struct tags re-extracted from protocol/*/*.go on every run and resolved per version by a Lean model of protocol.go; byte-level model<->code correspondence in both directions through a compiled Lean oracle; independent Kafka wire reference + audited golden schema table as monitor",
+    "technique": "Lean 4: one mutual-induction round-trip theorem over an executable model of the reflection codec (encode.go/decode.go/request.go/response.go) for ALL resolved schemas and values; struct tags re-extracted from protocol/*/*.go on every run and resolved per version by a Lean model of protocol.go; byte-level model<->code correspondence in both directions through a compiled Lean oracle; independent Kafka wire reference + audited golden schema table as monitor; the hand-written Conn codec (sizeof.go/write.go writers, write*RequestV* functions incl. the message-set writer, readFrom / reflective response readers) re-translated from the source into Lean on every run with generated theorems: announced size = bytes written, writer = model encoder = reference encoding under the golden schema, reader inverts writer",
     "level_claimed": {
         "category": "proof",
-        "text": "Kernel-checked: decode (encode v ++ rest) = (norm v, rest) for every resolved schema type and every well-typed value (no size bound besides int32 frames), frame size prefix = bytes that follow, a framed response is consumed exactly, unknown tagged fields are skipped, model encoder = Kafka reference encoder; instantiated at every registered API x version re-extracted from the source. Tied to the code by regenerated schemas and by running WriteRequest/WriteResponse/ReadRequest/ReadResponse (default and unsafe builds) against the model on generated values, both directions.",
+        "text": "Kernel-checked: decode (encode v ++ rest) = (norm v, rest) for every resolved schema type and every well-typed value (no size bound besides int32 frames), frame size prefix = bytes that follow, a framed response is consumed exactly, unknown tagged fields are skipped, model encoder = Kafka reference encoder; Conn codec: legacy_size, legacy_model, legacy_eq_spec, read_write, legacy_read_spec for every translated type / call site; instantiated at every registered API x version re-extracted from the source. Tied to the code by regenerated schemas and by running WriteRequest/WriteResponse/ReadRequest/ReadResponse (default and unsafe builds) against the model on generated values, both directions.",
         "design_ref": "DESIGN.md §7 C04",
     },
-    "level_note": "Trusted: Lean kernel + propext/Classical.choice/Quot.sound; the go/ast schema extractor; the driver/oracle correspondence (sampled values); Spec/KafkaWire.lean and the golden table Spec/KafkaSchemas.lean are transcriptions from the published Kafka protocol (12 APIs audited, the others follow the tree: snapshot-unaudited); RecordSet payloads are opaque blobs here (C05). The hand-written Conn codec (write.go/sizeof.go) is not yet modelled — partial, see docs/notes/C04.md.",
+    "level_note": "Trusted: Lean kernel + propext/Classical.choice/Quot.sound; the go/ast schema extractor; the driver/oracle correspondence (sampled values); Spec/KafkaWire.lean and the golden table Spec/KafkaSchemas.lean are transcriptions from the published Kafka protocol (all 39 registered APIs audited over the tree's version ranges, CreateTopics v5 excepted; nullability deviations are accepted as audit notes and follow the tree); RecordSet payloads are opaque blobs here (C05). Conn codec: the go/ast translators of go/extract/legacy (types, writers, readers — untranslatable items are listed in Gen.Legacy.untranslated / noReader / noSchema and covered by correspondence only); []byte nil ~ empty and the `remain` byte accounting of the readers are not modelled; which argument lands in which same-typed field of a write*RequestV* body is checked by correspondence (connreqv) only.",
 }
 
 MODULE = "KafkaVerif.Props.C04"
@@ -23,7 +23,7 @@ def run(ctx, variants=(("verif", "c04"), ("verif,unsafe", "c04u"))):
         "values fit int32-sized frames: strings < 2^15 bytes in non-flexible versions, arrays/bytes < 2^31 (WellTyped)",
         "schemas are well-formed (Ty.wf, evaluated on every resolved registered schema): array elements have positive width, tag ids distinct and >= 0",
         "RecordSet / RawRecordSet fields are an int32-size-prefixed opaque payload (their inside is C05)",
-        "golden table: Produce, Fetch, ListOffsets, Metadata, OffsetCommit, OffsetFetch, FindCoordinator, JoinGroup, Heartbeat, LeaveGroup, SyncGroup, ApiVersions audited; other APIs snapshot-unaudited (reference = tree)",
+        "golden table: all 39 APIs registered by the tree are audited (transcribed from the Kafka message definitions) over the version ranges the tree supports, CreateTopics v5 excepted (reference = tree there); nullability deviations accepted as audit notes (Spec.auditNotes); C04-D30 (DescribeAcls v2-v3 request) is a known finding",
         "Go's empty string stands for null in nullable string fields (library convention accepted as canonical)",
     ]
     broken = []
@@ -33,13 +33,20 @@ def run(ctx, variants=(("verif", "c04"), ("verif,unsafe", "c04u"))):
         broken.append({"kind": "obligation", "theorems": res["failed"], "detail": res["reasons"][:10]})
     thms = list(ctx.coverage.get("theorems", []))
     # the hand-written Conn codec: size()/writeTo() of every root-package request type, re-translated and re-proved
-    okl, logl = ctx.extract("legacy", ["lean/KafkaVerif/Gen/Legacy.lean"])
+    okl, logl = ctx.extract("legacy", ["lean/KafkaVerif/Gen/Legacy.lean", "lean/KafkaVerif/Gen/LegacyGolden.lean"])
     if not okl:
         broken.append({"kind": "obligation", "name": "translator go/extract legacy", "detail": logl[-1500:]})
     resl = ctx.prove("KafkaVerif.Gen.Legacy", thorough_leanchecker=False)
     if not resl["ok"]:
-        broken.append({"kind": "obligation", "name": "legacy_size (announced size = bytes written) no longer proves for the Conn codec",
+        broken.append({"kind": "obligation", "name": "Gen/Legacy.lean: legacy_size (announced size = bytes written) / legacy_model / read_write (reader inverts writer) no longer prove for the Conn codec",
                        "theorems": resl["failed"], "detail": resl["reasons"][:10]})
+    thms += list(ctx.coverage.get("theorems", []))
+    # … and what each (*Conn).writeRequest call site emits is the reference encoding under the golden schema
+    # (depends on Gen.Legacy: when that does not build, its failure is the report — no second 50 s attempt)
+    resg = ctx.prove("KafkaVerif.Gen.LegacyGolden", thorough_leanchecker=False) if resl["ok"] else {"ok": True, "failed": [], "reasons": []}
+    if not resg["ok"]:
+        broken.append({"kind": "obligation", "name": "legacy_eq_spec / legacy_read_spec (Conn request body = reference encoding under the golden schema; response reader inverts it) no longer prove",
+                       "theorems": resg["failed"], "detail": resg["reasons"][:10]})
     ctx.coverage["theorems"] = thms + list(ctx.coverage.get("theorems", []))
     try:
         gl = open(os.path.join(os.path.dirname(os.path.dirname(os.path.abspath(__file__))), "lean", "KafkaVerif", "Gen", "Legacy.lean")).read()
@@ -54,6 +61,9 @@ def run(ctx, variants=(("verif", "c04"), ("verif,unsafe", "c04u"))):
     orc, olog = ctx.oracle_build("oracle_c04")
     if orc is None:
         broken.append({"kind": "obligation", "name": "oracle_c04 could not be built", "detail": olog[-1500:]})
+    orcleg, oleglog = ctx.oracle_build("oracle_c04leg") if resl["ok"] else (None, "Gen/Legacy.lean does not build")
+    if orcleg is None and resl["ok"]:
+        broken.append({"kind": "obligation", "name": "oracle_c04leg (needs Gen/Legacy.lean) could not be built", "detail": oleglog[-1500:]})
     for tags, name in variants:
         if orc is None:
             break
@@ -66,6 +76,17 @@ def run(ctx, variants=(("verif", "c04"), ("verif,unsafe", "c04u"))):
             broken.append({"kind": "obligation", "name": "driver c04 (%s) crashed" % tags, "detail": err[-1500:]})
         direct = [l for l in lines if "\t" in l and not l.startswith("spec ")]
         dis += ctx.correspond(direct, orc, "protocol codec (%s) <-> Model/Codec.lean" % tags)
+        # the generated Lean models of the Conn response readers (Gen/Legacy.lean T.readFrom, subject of read_write) on the
+        # same bodies: same bytes left, same re-encoding
+        if orcleg is not None:
+            leg = []
+            for l in lines:
+                if l.startswith("legread ") and "\t" in l:
+                    op, impl = l.split("\t", 1)
+                    w = op.split(" ")
+                    if len(w) == 5:
+                        leg.append("legmodel %s %s %s\t%s" % (w[2], w[3], w[4], impl))
+            dis += ctx.correspond(leg, orcleg, "Conn response readers (%s) <-> Gen/Legacy.lean readFrom models" % tags)
         # second direction: reference frames (Spec encoder, golden schema) decoded by the real code
         frames, ferr = codec.spec_frames(ctx, orc, lines)
         if frames is None:
